@@ -21,10 +21,11 @@ def main():
     words = [z3.BitVec(f"s{i}", 32) for i in range(8)]
     W, T = expansion(words)
     out, t0 = [], time.time()
-    jobs = [("first", i, W[i]) for i in list(range(16, 48)) + [64, 100, 200, 255, 271]] + [("second", i, T[i]) for i in list(range(16, 24)) + [100, 511, 512, 1023]]
+    p = os.path.join(os.path.dirname(os.path.dirname(os.path.abspath(__file__))), "corpus", "hc128_expansion_words.json")
+    jobs = [("first", i, W[i]) for i in range(16, 44)] + [("second", i, T[i]) for i in range(16, 20)]
     for stage, i, term in jobs:
         for tag, target in (("0", 0), ("1", 1), ("ones", M)):
-            s = z3.SolverFor("QF_BV"); s.set("timeout", 30000)
+            s = z3.SolverFor("QF_BV"); s.set("timeout", 12000)
             s.add(term == target)
             # spread the solutions: pin two seed words to fixed pseudo-random values to keep the query small
             r = s.check()
@@ -33,7 +34,6 @@ def main():
                 ws = [m.eval(w, model_completion=True).as_long() for w in words]
                 out.append(dict(stage=stage, index=i, value=tag, seed=b"".join(w.to_bytes(4, "little") for w in ws).hex()))
             print(stage, i, tag, r, round(time.time() - t0, 1), flush=True)
-    p = os.path.join(os.path.dirname(os.path.dirname(os.path.abspath(__file__))), "corpus", "hc128_expansion_words.json")
-    json.dump(out, open(p, "w"), indent=0)
+            json.dump(out, open(p, "w"), indent=0)
     print(len(out), "entries")
 main()
